@@ -2,7 +2,7 @@
 import ast
 import os
 
-from .ir import S, walk_stmts, walk_expr, stmt_exprs, sub_blocks
+from .ir import S, walk_stmts, walk_expr, stmt_exprs, sub_blocks, mk_cmp, mk_if, mk_cond, canon_cond
 
 INF = float('inf')
 
@@ -165,7 +165,7 @@ def conv_expr(n):
         parts = []
         for o, c in zip(n.ops, n.comparators):
             r = conv_expr(c)
-            parts.append(('bin', ops[type(o)], left, r))
+            parts.append(mk_cmp(ops[type(o)], left, r))
             left = r
         e = parts[0]
         for p in parts[1:]:
@@ -200,7 +200,7 @@ def conv_expr(n):
     if isinstance(n, ast.Dict):
         return ('dict', tuple((conv_expr(k) if k is not None else None, conv_expr(v)) for k, v in zip(n.keys, n.values)))
     if isinstance(n, ast.IfExp):
-        return ('cond', conv_expr(n.test), conv_expr(n.body), conv_expr(n.orelse))
+        return mk_cond(conv_expr(n.test), conv_expr(n.body), conv_expr(n.orelse))
     if isinstance(n, ast.Starred):
         return ('star', conv_expr(n.value))
     if isinstance(n, ast.Lambda):
@@ -303,7 +303,7 @@ def conv_stmt(n):
         t = conv_expr(n.target)
         return [S('assign', line, target=t, value=('bin', op, t, conv_expr(n.value)), aug=op)]
     if isinstance(n, ast.If):
-        return [S('if', line, cond=conv_expr(n.test), then=conv_block(n.body), els=conv_block(n.orelse))]
+        return [mk_if(line, conv_expr(n.test), conv_block(n.body), conv_block(n.orelse))]
     if isinstance(n, (ast.For, ast.AsyncFor)):
         r = _range_for(n)
         if r is not None:
